@@ -350,21 +350,21 @@ def _grid_data(ctx, R, nmax, sfx):
     F = lambda b: z3.fpBVToFP(b, z3.Float64())
     import struct
     d = lambda x: struct.unpack('<d', struct.pack('<Q', x))[0]
-    if not sfx:   # (the binary search over 10 symbolic IEEE points exceeds the query budget; long knot vectors reach findElement through C01)
-        # findElement: index of x if present (binary search through real loads of grid data), refusal otherwise
-        W = World(ctx['mod'], nmax, max_visits=nmax + 6); g = W.mk_grid('g', n=(nmax if sfx else None)); go = W.mk_grid_obj('gobj', g); x = W.var('x')
-        if sfx: W.vars['g_n'] = bv(nmax); W.assume(z3.Not(z3.fpIsNaN(F(x))))
-        def native_find(m):
-            G = nat.grid(m['g_n'], [d(m['g_p%d' % k]) for k in range(m['g_n'])]); o = ctypes.c_size_t(77)
-            nat.lib.n_gfind.argtypes = [ctypes.c_void_p, ctypes.c_double, ctypes.POINTER(ctypes.c_size_t)]
-            rc = nat.lib.n_gfind(G, d(m['x']), ctypes.byref(o))
-            pts = [d(m['g_p%d' % k]) for k in range(m['g_n'])]; exp = [k for k, p in enumerate(pts) if p == d(m['x'])]
-            return (rc == 0) != bool(exp) or (exp and o.value != exp[0]), 'native findElement(%s, %r) -> rc=%d index=%d' % (pts, d(m['x']), rc, o.value)
-        for o in run_paths(ctx, R, W, '@w_gfind', [bv(go.base), x], 'find-element' + sfx, native_find):
-            present = z3.Or([z3.And(z3.UGT(g['n'], k), z3.fpEQ(F(g['pts'][k]), F(x))) for k in range(nmax)])
-            if o.kind == 'throw': prove(R, W, o.st, z3.And(z3.Not(present), o.val[0] == EC['INCONSISTENT_DATA']), 'find-element' + sfx + '/refuses-only-absent-values', native_find)
-            else: prove(R, W, o.st, z3.Or([z3.And(z3.UGT(g['n'], k), o.val == k, z3.fpEQ(F(g['pts'][k]), F(x))) for k in range(nmax)]), 'find-element' + sfx + '/returns-the-index-of-x', native_find)
-            no_input_writes(R, o, 'find-element' + sfx)
+    # findElement: index of x if present (binary search through real loads of grid data), refusal otherwise
+    W = World(ctx['mod'], nmax, max_visits=nmax + 6); g = W.mk_grid('g', n=(nmax if sfx else None)); go = W.mk_grid_obj('gobj', g); x = W.var('x')
+    W.assume(z3.Not(z3.fpIsNaN(F(x))))
+    if sfx: W.vars['g_n'] = bv(nmax); W.ex.fork_fp_selects = True
+    def native_find(m):
+        G = nat.grid(m['g_n'], [d(m['g_p%d' % k]) for k in range(m['g_n'])]); o = ctypes.c_size_t(77)
+        nat.lib.n_gfind.argtypes = [ctypes.c_void_p, ctypes.c_double, ctypes.POINTER(ctypes.c_size_t)]
+        rc = nat.lib.n_gfind(G, d(m['x']), ctypes.byref(o))
+        pts = [d(m['g_p%d' % k]) for k in range(m['g_n'])]; exp = [k for k, p in enumerate(pts) if p == d(m['x'])]
+        return (rc == 0) != bool(exp) or (exp and o.value != exp[0]), 'native findElement(%s, %r) -> rc=%d index=%d' % (pts, d(m['x']), rc, o.value)
+    for o in run_paths(ctx, R, W, '@w_gfind', [bv(go.base), x], 'find-element' + sfx, native_find):
+        present = z3.Or([z3.And(z3.UGT(g['n'], k), z3.fpEQ(F(g['pts'][k]), F(x))) for k in range(nmax)])
+        if o.kind == 'throw': prove(R, W, o.st, z3.And(z3.Not(present), o.val[0] == EC['INCONSISTENT_DATA']), 'find-element' + sfx + '/refuses-only-absent-values', native_find)
+        else: prove(R, W, o.st, z3.Or([z3.And(z3.UGT(g['n'], k), o.val == k, z3.fpEQ(F(g['pts'][k]), F(x))) for k in range(nmax)]), 'find-element' + sfx + '/returns-the-index-of-x', native_find)
+        no_input_writes(R, o, 'find-element' + sfx)
     # Grid::operator== on two vectors
     W = World(ctx['mod'], nmax, max_visits=nmax + 6); g = W.mk_grid('g', n=(nmax if sfx else None)); h = W.mk_grid('h', n=(nmax if sfx else None)); go = W.mk_grid_obj('gobj', g); ho = W.mk_grid_obj('hobj', h)
     if sfx: W.vars['g_n'] = bv(nmax); W.vars['h_n'] = bv(nmax)
